@@ -60,9 +60,9 @@ def gen_spec(rng, nmax=14, asym=None):
     def mk_line(i, j, online=True):
         x = rng.uniform(0.02, 0.25)
         ln = {'bus1': i, 'bus2': j, 'u': 1.0 if online else 0.0, 'x': x, 'r': x * rng.choice([0.0, 0.1, 0.3]) * rng.random(),
-              'b': rng.choice([0.0, rng.uniform(0, 0.08)]), 'g': rng.choice([0.0, 0.0, 0.0, 0.004]),
+              'b': rng.choice([0.0, rng.uniform(0, 0.03)]), 'g': rng.choice([0.0, 0.0, 0.0, 0.004]),
               'b1': 0.0, 'g1': 0.0, 'b2': 0.0, 'g2': 0.0,
-              'tap': rng.choice([1.0, 1.0, round(rng.uniform(0.92, 1.08), 3)]),
+              'tap': rng.choice([1.0, 1.0, round(rng.uniform(0.95, 1.05), 3)]),
               'phi': rng.choice([0.0, 0.0, 0.0, round(rng.uniform(-0.1, 0.1), 3)])}
         if rng.random() < 0.2:
             ln['b1'] = ln['b2'] = round(rng.uniform(0, 0.05), 4)
@@ -96,7 +96,7 @@ def gen_spec(rng, nmax=14, asym=None):
     if not pqs:
         pqs.append({'bus': (slack_bus + 1) % nb, 'u': 1.0, 'p0': 0.2, 'q0': 0.05, 'Vn': buses[(slack_bus + 1) % nb]['Vn']})
     tot = sum(q['p0'] * q['u'] for q in pqs)
-    scale = min(1.0, 2.0 / max(tot, 1e-9))
+    scale = min(1.0, 0.6 / max(tot, 1e-9))      # normal loading: well below the transfer limit of a weak radial path
     for q in pqs:
         q['p0'] *= scale
         q['q0'] *= scale
@@ -426,13 +426,14 @@ def job(arg):
         cnt('converged' if conv else 'not-converged')
         cnt('niter:%d' % (ss.PFlow.niter + 1))
         base_sol = None
+        normal = False
         if conv:
             bad, info = oracle(ss)
             out['oracle'] += bad
             out['info'] = {k: info[k] for k in ('worst', 'vmin', 'vmax', 'outband', 'islanded')}
             base_sol = {k: solution(ss)[str(bidx[k])] for k in bidx}
-            if info['outband'] == 0 and 0.85 <= info['vmin'] and info['vmax'] <= 1.15:
-                cnt('normal-loading')
+            normal = info['outband'] == 0 and 0.8 <= info['vmin'] and info['vmax'] <= 1.2
+            cnt('normal-loading' if normal else 'converged-outside-voltage-band')
         ysol = ss.dae.y.copy()
         # correspondence: g at the solution and at a random point; per-unit data
         nb = ss.Bus.n
@@ -461,7 +462,7 @@ def job(arg):
                 out['oracle'] += [(k, '[%s] %s' % (tag, w)) for k, w in bad]
                 sol = solution(ss)
                 dmax = max(max(abs(sol[str(bidx[k])][0] - base_sol[k][0]), abs(sol[str(bidx[k])][1] - base_sol[k][1])) for k in bidx)
-                if dmax > 1e-6:
+                if normal and dmax > 1e-5:
                     out['oracle'].append(('solver-variant-changes-solution', '%s gives bus voltages differing by %.3g from NR/klu' % (tag, dmax)))
             solve(ss)
         # metamorphic variant: insertion order, idx type, device base
@@ -479,7 +480,7 @@ def job(arg):
                 sol2 = solution(s2)
                 dmax = max(max(abs(sol2[str(bidx2[k])][0] - base_sol[k][0]), abs(sol2[str(bidx2[k])][1] - base_sol[k][1])) for k in bidx)
                 key = 'solution-depends-on-device-base' if variant['rebase'] else 'solution-depends-on-order-or-idx-type'
-                if dmax > 1e-6:
+                if normal and dmax > 1e-5:
                     out['oracle'].append((key, 'bus voltages differ by %.3g between two entries of the same physical network (%r)'
                                           % (dmax, variant)))
                 y2 = s2.dae.y.copy()
